@@ -5,10 +5,18 @@
    Conc/LockSetProofs.v about the machine of Conc/LockSet.v.  The table of access
    sites of /repo/object/*.go is written by the translator (harness dumpsites) into
    gen/LockSites.v on every run, with [sites_ok : well_locked sites = true] by
-   computation and the instance of C20_well_locked_no_race for that table. *)
+   computation and the instance of C20_well_locked_no_race for that table.
+   The second group is about the CONTENTS of the tables ("cannot corrupt symbol
+   lookup"): the machine of Conc/Intern.v runs GetSymHash / SymHash2Str of any number
+   of threads with every critical section as one step; the driver checks on every run
+   (translator dumpwrites) that every function of /repo/object that writes one of the
+   two tables writes the other one in the same critical section, which is the
+   [split = false] machine of these theorems. *)
 From Coq Require Import List.
 Import ListNotations.
+From Coq Require Import NArith String.
 From PanVerif Require Import Conc.LockSet Conc.LockSetProofs.
+From PanVerif Require Conc.Intern Conc.InternProofs.
 
 (* Sufficiency: if every write site holds the write lock and every read site holds
    the read or the write lock, no number of threads, no programs built from those
@@ -68,3 +76,40 @@ Proof.
   split; [reflexivity|]. split; [exact demo_built|].
   split; [exact demo_runs_to_completion | exact demo_blocked_step_does_not_advance].
 Qed.
+
+(* ---- contents of the tables ------------------------------------------------ *)
+(* Whatever the hash function, the number of threads, their programs and the schedule:
+   every answer SymHash2Str ever gave for a hash that GetSymHash(s) returned is a string,
+   the hash is the hash of s, and the string found has that hash. *)
+Theorem C20_interned_symbol_is_always_found : forall (h : string -> N) progs sched s k r,
+  In (s, k, r) (Intern.observations (Intern.run h false (Intern.init progs) sched)) ->
+  k = h s /\ exists s', r = Some s' /\ h s' = h s.
+Proof. exact InternProofs.atomic_lookup_never_fails. Qed.
+Print Assumptions C20_interned_symbol_is_always_found.
+
+(* ... and it is s itself unless another string has the same 64-bit hash. *)
+Theorem C20_interned_symbol_reads_back : forall (h : string -> N) progs sched s k r,
+  (forall s', h s' = h s -> s' = s) ->
+  In (s, k, r) (Intern.observations (Intern.run h false (Intern.init progs) sched)) -> r = Some s.
+Proof. exact InternProofs.atomic_lookup_returns_the_string. Qed.
+Print Assumptions C20_interned_symbol_reads_back.
+
+(* The tables in every reachable state. *)
+Theorem C20_tables_consistent_in_every_reachable_state : forall (h : string -> N) progs sched s k,
+  Intern.sym (Intern.run h false (Intern.init progs) sched) s = Some k ->
+  k = h s /\ exists s', Intern.str (Intern.run h false (Intern.init progs) sched) k = Some s' /\ h s' = k.
+Proof. exact InternProofs.atomic_tables_consistent. Qed.
+Print Assumptions C20_tables_consistent_in_every_reachable_state.
+
+(* Necessity: with the two writes in two critical sections (each correctly locked, so no
+   data race) there is a schedule on which a thread obtains a hash and cannot find it. *)
+Theorem C20_split_interning_loses_a_lookup : forall (h : string -> N),
+  In ("a"%string, h "a"%string, None) (Intern.observations (Intern.run h true (Intern.init InternProofs.split_progs) InternProofs.split_sched)).
+Proof. exact InternProofs.split_lookup_can_fail. Qed.
+Print Assumptions C20_split_interning_loses_a_lookup.
+
+(* Non-vacuity: the same two threads and schedule on the machine of the code do record an
+   observation, and it is the string. *)
+Example C20_interning_nonvacuous : forall (h : string -> N),
+  Intern.observations (Intern.run h false (Intern.init InternProofs.split_progs) InternProofs.split_sched) = [("a"%string, h "a"%string, Some "a"%string)].
+Proof. exact InternProofs.unsplit_same_schedule_succeeds. Qed.
